@@ -25,7 +25,7 @@ ASSUMPTIONS = [
     'ZooKeeper hosts compared as a case-insensitive multiset (the Kazoo client shuffles and lower-cases them); no connection is made',
 ]
 BUDGET = {
-    'quick': {'examples': 500},
+    'quick': {'examples': 1500},
     'thorough': {'examples': 4000, 'shards': 8},
 }
 
